@@ -712,6 +712,8 @@ class Verifier:
                 b = MList(b.items)
             if la and lb:
                 u = unify_types(type_of(a), type_of(b))
+                if u is None and SeqT(ANY) in (type_of(a), type_of(b)):
+                    u = SeqT(ANY)        # a sequence of opaque values absorbs the other operand's elements (boxed)
                 if u is None:
                     raise Unsupported('list + list of different types')
                 return SV(u, z3.Concat(pack(a, u), pack(b, u)))
